@@ -40,6 +40,7 @@ type c02op struct {
 }
 
 func runC02(c *fw.Ctx) {
+	var psc lab.Scratch // every path handed to the trie lives in this re-used buffer
 	r := c.Rng
 	g := lab.NewPathGen(r)
 	version := int64(1 + r.Intn(1000))
@@ -175,11 +176,11 @@ func runC02(c *fw.Ctx) {
 		for _, op := range h.ops {
 			if op.del {
 				tr = append(tr, fmt.Sprintf("del %q", op.path))
-				_, _ = m.Delete(util.Path(op.path))
+				_, _ = m.Delete(psc.P(op.path))
 				delete(cur, op.path)
 			} else {
 				tr = append(tr, fmt.Sprintf("ins %q=%q", op.path, op.val))
-				if _, err := m.Insert(util.Path(op.path), &lab.Val{B: op.val}); err != nil {
+				if _, err := m.Insert(psc.P(op.path), &lab.Val{B: op.val}); err != nil {
 					c.Violate("", "history %s: Insert(%q) failed: %v; trace: %s", h.name, op.path, err, strings.Join(tr, "; "))
 					bad = true
 					break
@@ -241,12 +242,13 @@ func runC02(c *fw.Ctx) {
 			go func(hi int) {
 				defer wg.Done()
 				defer func() { _ = recover() }()
+				var psc lab.Scratch
 				m := lab.NewMPT(util.NewMemoryNodeDB(), version, nil)
 				for rep := 0; rep < 3; rep++ {
 					for _, op := range hists[hi].ops {
 						if op.del {
-							_, _ = m.Delete(util.Path(op.path))
-						} else if _, err := m.Insert(util.Path(op.path), &lab.Val{B: op.val}); err != nil {
+							_, _ = m.Delete(psc.P(op.path))
+						} else if _, err := m.Insert(psc.P(op.path), &lab.Val{B: op.val}); err != nil {
 							return
 						}
 					}
@@ -290,7 +292,7 @@ func init() {
 	fw.Register(&fw.Prop{
 		ID:    "C02",
 		Level: "exploration",
-		Rule: "each case draws a version and a content S (by a random insert/delete history over structure-seeking paths) and then replays five more histories that end in S at that version: shuffled inserts; inserts mixed with related extra paths that are deleted afterwards; " +
+		Rule: "(paths are handed to the trie in one re-used scratch buffer per replay) each case draws a version and a content S (by a random insert/delete history over structure-seeking paths) and then replays five more histories that end in S at that version: shuffled inserts; inserts mixed with related extra paths that are deleted afterwards; " +
 			"overwrite chains with delete-then-reinsert; interior paths late; interior paths early. After every operation of every history the root must equal an independent canonical-trie hasher applied to the model content; all final roots must be identical; " +
 			"the stored encodings reachable from the root are parsed by the harness' own decoder and must reproduce S (raw bytes from the persistent store for a third of the histories); a per-worker root->content table checks injectivity; every 8th case runs with the package's debug switch (DebugMPTNode) on; every 8th case also replays its six histories (three times each) in six concurrent goroutines on private tries and requires the canonical root from each. " +
 			"non-trivial = content with >=2 entries whose canonical trie has at least one branch; distinct by (version, content)",
